@@ -70,6 +70,7 @@ type FuncContract struct {
 	Line      int
 	Trusted   string // reason, if the block is assumed rather than verified
 	MayPanic  bool   // extern: may panic (arbitrary user code)
+	Returns   *Expr    // pure closure: the expression it returns (checked as ensures result == e)
 	Entry     []string // entry assumptions justified by meta-arguments (e.g. nolocks)
 }
 
@@ -88,10 +89,16 @@ type Contracts struct {
 	Files   []string
 	Decls   map[string]string // pkgpath.Type.field -> declaration (guarded_by L / immutable / owner)
 	Frames  map[string][]string
+	Templates map[string]*Template
+}
+
+type Template struct {
+	Params []string
+	Lines  []string
 }
 
 func NewContracts() *Contracts {
-	return &Contracts{Funcs: map[string]*FuncContract{}, Preds: map[string]*PredDef{}, Decls: map[string]string{}, Frames: map[string][]string{}}
+	return &Contracts{Funcs: map[string]*FuncContract{}, Preds: map[string]*PredDef{}, Decls: map[string]string{}, Frames: map[string][]string{}, Templates: map[string]*Template{}}
 }
 
 func parseTags(s string) ([]string, string) {
@@ -166,9 +173,11 @@ func (cs *Contracts) LoadFile(path, pkgPath string) error {
 	sc.Buffer(make([]byte, 1<<20), 1<<20)
 	var cur *FuncContract
 	var curOn *OnCall
+	var curTmpl *Template
 	lineNo := 0
 	var pending string
 	pendingLine := 0
+	var flushFn func(raw string, ln int) error
 	flush := func(raw string, ln int) error {
 		line := strings.TrimSpace(raw)
 		if line == "" {
@@ -186,6 +195,53 @@ func (cs *Contracts) LoadFile(path, pkgPath string) error {
 		if i := strings.IndexAny(line, " \t"); i >= 0 {
 			word = line[:i]
 			rest = strings.TrimSpace(line[i+1:])
+		}
+		if curTmpl != nil {
+			if word == "endtemplate" {
+				curTmpl = nil
+				return nil
+			}
+			curTmpl.Lines = append(curTmpl.Lines, line)
+			return nil
+		}
+		if word == "template" {
+			lp := strings.Index(rest, "(")
+			if lp < 0 || !strings.HasSuffix(rest, ")") {
+				return fmt.Errorf("%s:%d: bad template head", path, ln)
+			}
+			t := &Template{}
+			for _, p := range strings.Split(rest[lp+1:len(rest)-1], ",") {
+				if p = strings.TrimSpace(p); p != "" {
+					t.Params = append(t.Params, p)
+				}
+			}
+			cs.Templates[strings.TrimSpace(rest[:lp])] = t
+			curTmpl = t
+			return nil
+		}
+		if word == "use" {
+			lp := strings.Index(rest, "(")
+			if lp < 0 || !strings.HasSuffix(rest, ")") {
+				return fmt.Errorf("%s:%d: bad use", path, ln)
+			}
+			t, ok := cs.Templates[strings.TrimSpace(rest[:lp])]
+			if !ok {
+				return fmt.Errorf("%s:%d: unknown template %q", path, ln, rest[:lp])
+			}
+			args := splitTop(rest[lp+1 : len(rest)-1])
+			if len(args) == 1 && strings.TrimSpace(args[0]) == "" {
+				args = nil
+			}
+			if len(args) != len(t.Params) {
+				return fmt.Errorf("%s:%d: template %s expects %d args, got %d", path, ln, rest[:lp], len(t.Params), len(args))
+			}
+			for _, tl := range t.Lines {
+				tl = substParams(tl, t.Params, args)
+				if err := flushFn(tl, ln); err != nil {
+					return err
+				}
+			}
+			return nil
 		}
 		switch word {
 		case "func", "extern", "iface":
@@ -289,6 +345,12 @@ func (cs *Contracts) LoadFile(path, pkgPath string) error {
 			cur.Entry = append(cur.Entry, strings.Fields(rest)...)
 		case "trusted":
 			cur.Trusted = rest
+		case "returns":
+			e, err := ParseExpr(rest)
+			if err != nil {
+				return fmt.Errorf("%s:%d: %v", path, ln, err)
+			}
+			cur.Returns = e
 		case "task":
 			cur.IsTask = true
 			cur.Task = strings.TrimSpace(strings.TrimPrefix(rest, "joins"))
@@ -405,6 +467,7 @@ func (cs *Contracts) LoadFile(path, pkgPath string) error {
 		}
 		return nil
 	}
+	flushFn = flush
 	for sc.Scan() {
 		lineNo++
 		raw := sc.Text()
@@ -462,6 +525,13 @@ func splitTop(s string) []string {
 
 // LoadAll loads contract files of the repo packages and the spec directory.
 func (cs *Contracts) LoadAll(repo, specDir string, pkgDirs map[string]string) error {
+	specs, _ := filepath.Glob(filepath.Join(specDir, "*.gsl"))
+	sort.Strings(specs)
+	for _, m := range specs {
+		if err := cs.LoadFile(m, ""); err != nil {
+			return err
+		}
+	}
 	var keys []string
 	for p := range pkgDirs {
 		keys = append(keys, p)
@@ -477,12 +547,39 @@ func (cs *Contracts) LoadAll(repo, specDir string, pkgDirs map[string]string) er
 			}
 		}
 	}
-	specs, _ := filepath.Glob(filepath.Join(specDir, "*.gsl"))
-	sort.Strings(specs)
-	for _, m := range specs {
-		if err := cs.LoadFile(m, ""); err != nil {
-			return err
-		}
-	}
 	return nil
+}
+
+// substParams replaces $NAME (whole identifiers) by the corresponding argument.
+func substParams(line string, params, args []string) string {
+	var sb strings.Builder
+	i := 0
+	for i < len(line) {
+		if line[i] == '$' {
+			j := i + 1
+			for j < len(line) && (line[j] == '_' || (line[j] >= 'a' && line[j] <= 'z') || (line[j] >= 'A' && line[j] <= 'Z') || (line[j] >= '0' && line[j] <= '9')) {
+				j++
+			}
+			name := line[i+1 : j]
+			done := false
+			for k, p := range params {
+				if p == name {
+					a := strings.TrimSpace(args[k])
+					if strings.ContainsAny(a, "&|=<>!+-*/") {
+						a = "(" + a + ")"
+					}
+					sb.WriteString(a)
+					done = true
+					break
+				}
+			}
+			if done {
+				i = j
+				continue
+			}
+		}
+		sb.WriteByte(line[i])
+		i++
+	}
+	return sb.String()
 }
